@@ -350,7 +350,11 @@ class Check:
         ev = {'property_id': self.prop, 'tier': self.tier, 'seed': self.seed, 'level': self.level,
               'coverage': cov, 'assumptions': self.assumptions, 'wall_s': round(time.time() - self.t0, 2),
               'violations': len(seen), 'repo_hash': repo_hash(), 'notes': self.notes, 'exit': rc}
-        with open(os.path.join(ROOT, 'evidence', self.prop + '.json'), 'w') as fh:
+        evdir = os.path.join(ROOT, 'evidence')
+        if os.path.realpath(REPO) != '/repo':      # a run against a scratch tree must not overwrite the real evidence
+            evdir = os.path.join(ROOT, '.cache', 'evidence-scratch')
+            os.makedirs(evdir, exist_ok=True)
+        with open(os.path.join(evdir, self.prop + '.json'), 'w') as fh:
             json.dump(ev, fh, indent=1, default=str)
         for b in getattr(self, '_bins', []):
             try:
